@@ -37,6 +37,67 @@ class Flat(Arr):
     pass
 
 
+class SlabArr(Arr):
+    """one of the consecutive pieces a verified partition generator cuts an array into (two generic pieces stand for
+    any number).  lo / hi: what the tests made on this path have established about the values it holds."""
+
+    def __init__(self, dt, sid):
+        super().__init__(dt)
+        self.sid = sid
+        self.lo, self.hi = DTMIN[dt], None  # values in [lo, hi)
+
+
+class _SlabMax:
+    def __init__(self, slab):
+        self.slab = slab
+
+
+def partition_generators(prog) -> set:
+    """quals of package generator functions that hand out their array argument piece by piece along the first axis,
+    every row exactly once: a single loop `for s in range(0, N, K): yield A[s : s + K]` with N = A.shape[0] and a
+    step K that is at least 1 (a positive constant or max(1, ...))."""
+    out = set()
+    for f in prog.package_functions():
+        if f.cls is not None or not f.call_params:
+            continue
+        ys = [n for n in walk_no_nested(f.node) if isinstance(n, (ast.Yield, ast.YieldFrom))]
+        loops = [n for n in walk_no_nested(f.node) if isinstance(n, (ast.For, ast.While))]
+        if len(ys) != 1 or len(loops) != 1 or not isinstance(loops[0], ast.For) or not isinstance(ys[0], ast.Yield):
+            continue
+        loop, y = loops[0], ys[0]
+        a = f.call_params[0].name
+        defs = {}
+        for st in walk_no_nested(f.node):
+            if isinstance(st, ast.Assign) and len(st.targets) == 1 and isinstance(st.targets[0], ast.Name):
+                defs.setdefault(st.targets[0].id, []).append(st.value)
+        it = loop.iter
+        if not (isinstance(loop.target, ast.Name) and isinstance(it, ast.Call) and isinstance(it.func, ast.Name) and it.func.id == "range" and len(it.args) == 3 and isinstance(it.args[0], ast.Constant) and it.args[0].value == 0):
+            continue
+        v = loop.target.id
+
+        def is_rows(e):
+            if isinstance(e, ast.Name) and len(defs.get(e.id, [])) == 1:
+                e = defs[e.id][0]
+            return isinstance(e, ast.Subscript) and isinstance(e.value, ast.Attribute) and e.value.attr == "shape" and isinstance(e.value.value, ast.Name) and e.value.value.id == a and isinstance(e.slice, ast.Constant) and e.slice.value == 0 or (isinstance(e, ast.Call) and isinstance(e.func, ast.Name) and e.func.id == "len" and len(e.args) == 1 and isinstance(e.args[0], ast.Name) and e.args[0].id == a)
+
+        def at_least_one(e):
+            if isinstance(e, ast.Constant) and isinstance(e.value, int) and e.value >= 1:
+                return True
+            if isinstance(e, ast.Name) and len(defs.get(e.id, [])) == 1:
+                return at_least_one(defs[e.id][0])
+            return isinstance(e, ast.Call) and isinstance(e.func, ast.Name) and e.func.id == "max" and any(isinstance(x, ast.Constant) and isinstance(x.value, int) and x.value >= 1 for x in e.args)
+
+        k = it.args[2]
+        sl = y.value
+        ok_slice = isinstance(sl, ast.Subscript) and isinstance(sl.value, ast.Name) and sl.value.id == a and isinstance(sl.slice, ast.Slice) and sl.slice.step is None and isinstance(sl.slice.lower, ast.Name) and sl.slice.lower.id == v and isinstance(sl.slice.upper, ast.BinOp) and isinstance(sl.slice.upper.op, ast.Add) and isinstance(sl.slice.upper.left, ast.Name) and sl.slice.upper.left.id == v and ast.dump(sl.slice.upper.right) == ast.dump(k)
+        # the array may be rebound before the loop only to a reshaped view of itself (0-d input)
+        rebinds = [d for d in defs.get(a, [])]
+        ok_rebind = all(isinstance(d, ast.Call) and isinstance(d.func, ast.Attribute) and d.func.attr == "reshape" and isinstance(d.func.value, ast.Name) and d.func.value.id == a for d in rebinds)
+        if is_rows(it.args[1]) and at_least_one(k) and ok_slice and ok_rebind and any(y is n for n in ast.walk(loop)):
+            out.add(f.qual)
+    return out
+
+
 class NonZeroSel:
     """arr[arr != 0]  (positive: arr[arr > 0])"""
 
@@ -55,7 +116,12 @@ class USet:
     def __init__(self, lo, hi, zero, shift=0, card=False):
         self.lo, self.hi, self.zero, self.shift = lo, hi, zero, shift
 
-    def exact(self, dtmax, dtmin=0) -> bool:
+    def exact(self, dtmax, dtmin=0, slabs=None) -> bool:
+        if getattr(self, "slabs", None) is not None and slabs:
+            # collected piece by piece: every piece is either collected whole or known (by the test that skipped it)
+            # to hold zeros only; the zero is dropped at the end, negative labels are kept
+            self.lost = sorted(sid for sid, sl in slabs.items() if sid not in self.slabs and not (sl.lo >= 0 and sl.hi is not None and sl.hi <= 1))
+            return not self.lost and not self.zero and self.shift == 0 and not getattr(self, "dropped_smallest", False) and (dtmin == 0 or not getattr(self, "dropped_negative", False))
         if getattr(self, "dropped_smallest", False):
             return False  # without background in the array the smallest LABEL is dropped, not the 0
         # (a histogram cannot be built of negative values at all - that is an error, not a silent loss)
@@ -63,6 +129,10 @@ class USet:
         return self.shift == 0 and lo_ok and not self.zero and (self.hi is None or self.hi > dtmax)
 
     def __repr__(self):
+        if getattr(self, "lost", None):
+            return f"values collected piece by piece; piece(s) {self.lost} skipped although the test that skips them does not show they hold zeros only (negative labels are lost)"
+        if getattr(self, "slabs", None) is not None:
+            return f"values collected piece by piece from {sorted(self.slabs)}{' incl. 0' if self.zero else ''}"
         if getattr(self, "dropped_smallest", False):
             return "present values without the smallest one (that is the background only if the array has background)"
         return f"present values in [{self.lo}, {'inf' if self.hi is None else self.hi}){' incl. 0' if self.zero else ''}{f' shifted by {self.shift}' if self.shift else ''}"
@@ -98,6 +168,24 @@ class _M:
 
 
 class EnumInterp(Interp):
+    def call_func(self, f, args, kwargs, node, self_obj=None):
+        if self_obj is None and args and type(args[0]) is Arr and f.qual in self.root.__dict__.setdefault("_partgens", partition_generators(self.prog)):
+            # a verified partition of the array: two generic pieces, each with whatever values
+            slabs = self.root.__dict__.setdefault("slabs", {})
+            if not slabs:
+                for sid in ("A", "B"):
+                    slabs[sid] = SlabArr(args[0].dt, sid)
+            return list(slabs.values())
+        return super().call_func(f, args, kwargs, node, self_obj=self_obj)
+
+    def _slab_test(self, slab, kind, node):
+        """a test on what a piece holds: an input class of its own; the outcome narrows what is known about the piece"""
+        u = self.root.__dict__.setdefault("_slab_unknowns", {}).setdefault((slab.sid, kind), Unknown(f"slab:{slab.sid}:{kind}"))
+        return u
+
+    def truth_hook(self, v, node):
+        return super().truth_hook(v, node)
+
     def get_attr(self, base, attr, node):
         if isinstance(base, Sym) and attr == "kind" and base.name.startswith("ext:numpy.") and base.name[4:] in {v[0] for v in DTYPES.values()}:
             return "i" if base.name.endswith(".int64") else "u"
@@ -114,6 +202,14 @@ class EnumInterp(Interp):
             o, n = fv.o, fv.name
             if isinstance(o, Arr) and n in ("ravel", "flatten") or (isinstance(o, Arr) and n == "reshape" and args == [-1]):
                 return Flat(o.dt)
+            if isinstance(o, SlabArr) and n == "any" and not args and not kwargs:
+                # does the piece hold a non-zero value: if not, it holds zeros only
+                d = self.decide(node, self._slab_test(o, "any", node))
+                if not d:
+                    o.lo, o.hi = max(o.lo, 0), 1
+                return d
+            if isinstance(o, SlabArr) and n == "max" and not args and not kwargs:
+                return _SlabMax(o)
             if isinstance(o, Arr) and n in ("max", "min", "any", "all", "sum"):
                 return Unknown("array reduction")
             if isinstance(o, Arr) and n == "astype" and args and isinstance(args[0], Sym) and args[0].name.split(".")[-1].split(":")[-1] in ("intp", "int64", "uint64", "int_", "uintp") and not (set(kwargs) - {"copy"}):
@@ -124,6 +220,12 @@ class EnumInterp(Interp):
         return super().apply(fv, args, kwargs, node)
 
     def compare_hook(self, op, l, r, node):
+        if isinstance(l, _SlabMax) and isinstance(r, int) and not isinstance(r, bool) and r == 0 and isinstance(op, (ast.Eq, ast.LtE, ast.Gt, ast.NotEq)):
+            # largest value of the piece against 0: "no positive value" says nothing about negative ones
+            d = self.decide(node, self._slab_test(l.slab, "max<=0", node))
+            if d:
+                l.slab.hi = 1
+            return d if isinstance(op, (ast.Eq, ast.LtE)) else not d
         if isinstance(l, Arr) and r == 0 and isinstance(op, (ast.NotEq, ast.Gt)):
             return NZMask(l, positive=isinstance(op, ast.Gt))
         if isinstance(l, USet) and r == 0 and isinstance(op, (ast.NotEq, ast.Gt)):
@@ -146,6 +248,9 @@ class EnumInterp(Interp):
                 return USet(base.lo, base.hi, False, base.shift)
             u = USet(max(base.lo, 1) if (idx.positive or base.lo >= 0) else base.lo, base.hi, False, 0)
             u.from_hist = getattr(base, "from_hist", False)
+            if getattr(base, "slabs", None) is not None:
+                u.slabs = set(base.slabs)
+                u.dropped_negative = idx.positive
             return u
         if isinstance(base, USet) and isinstance(idx, slice) and idx.step in (None, 1) and idx.stop is None and idx.start == 1:
             # the sorted distinct values without the first: drops 0 only if 0 is present, else a label
@@ -193,6 +298,20 @@ class EnumInterp(Interp):
         if name == "numpy.unique" and len(a) == 1 and set(kwargs) == {"return_counts"} and kwargs["return_counts"] is True and isinstance(a[0], Arr):
             u = USet(DTMIN[a[0].dt], None, True)
             return (u, CountsOf(u))
+        if name == "numpy.unique" and len(a) == 1 and not kwargs and isinstance(a[0], SlabArr):
+            u = USet(a[0].lo, a[0].hi, True)
+            u.slabs = {a[0].sid}
+            return u
+        if name == "numpy.concatenate" and len(a) == 1 and not kwargs and isinstance(a[0], (list, tuple)) and a[0] and all(isinstance(x, USet) and x.shift == 0 and getattr(x, "slabs", None) is not None for x in a[0]):
+            xs = a[0]
+            u = USet(min(x.lo for x in xs), None if any(x.hi is None for x in xs) else max(x.hi for x in xs), any(x.zero for x in xs))
+            u.slabs = set().union(*[x.slabs for x in xs])
+            u.pieces = [(x.lo, x.hi) for x in xs]
+            return u
+        if name in ("numpy.empty", "numpy.zeros", "numpy.array") and a and a[0] in (0, [], ()) and self.root.__dict__.get("slabs"):
+            u = USet(1, 1, False)  # no value at all
+            u.slabs = set()
+            return u
         if name == "numpy.unique" and len(a) == 1 and not kwargs:
             x = a[0]
             if isinstance(x, (Arr,)):
@@ -275,15 +394,20 @@ def check_label_enumeration(ctx: Ctx):
     for f, kind, flag in [(f, k, None) for f, k in targets] + flagged:
         p0 = f.call_params[0].name
         for dt, (sym, dtmax) in DTYPES.items():
+            holder = []
+
             def make(prefix, dt=dt, flag=flag):
-                return EnumInterp(prog, f, {p0: Arr(dt), **({flag: True} if flag else {})}, prefix=prefix)
+                it_ = EnumInterp(prog, f, {p0: Arr(dt), **({flag: True} if flag else {})}, prefix=prefix)
+                holder.append(it_)
+                return it_
 
             try:
-                outs = enumerate_paths(make, max_paths=32)
+                outs = enumerate_paths(make, max_paths=512)
             except Undecided as e:
                 ctx.undecided("R09.6", f, f.node, f"{f.qual}:dtype={dt}", f"label enumeration not evaluable: {e}")
                 continue
-            for out in outs:
+            for out, it_ in zip(outs, holder):
+                slabs_ = it_.root.__dict__.get("slabs")
                 dtxt = "; ".join(f"{norm(nd) if isinstance(nd, ast.AST) else '?'}={d}" for nd, v, d in out.decisions)
                 construct = f"{f.qual}:dtype={dt}" + (f",{flag}=True" if flag else "") + (f"[{dtxt}]" if dtxt else "")
                 if flag and out.kind == "return" and isinstance(out.value, tuple) and len(out.value) == 2 and isinstance(out.value[1], CountsOf) and out.value[1].of is not None:
@@ -303,7 +427,8 @@ def check_label_enumeration(ctx: Ctx):
                 if us is None:
                     ctx.undecided("R09.6", f, out.node, construct, f"result outside the modelled label-set expressions: {v!r}"[:160])
                     continue
-                ctx.decide("R09.6", f, out.node, construct, "the helper yields exactly the non-zero values present in the array" + (" (their number)" if kind == "count" else ""), us.exact(dtmax, DTMIN[dt]), {"got": repr(us), "dtype_max": dtmax, "dtype_min": DTMIN[dt]})
+                ok_ = us.exact(dtmax, DTMIN[dt], slabs_)
+                ctx.decide("R09.6", f, out.node, construct, "the helper yields exactly the non-zero values present in the array" + (" (their number)" if kind == "count" else ""), ok_, {"got": repr(us), "dtype_max": dtmax, "dtype_min": DTMIN[dt]})
     if n < 10:
         ctx.undecided("R09.6.floor", None, None, "floor:R09.6", f"{n} enumeration paths evaluated, confirmed floor is 10")
 
@@ -322,15 +447,22 @@ def verified_enumerators(prog) -> dict:
         kinds = set()
         ok = True
         for dt, (sym, dtmax) in DTYPES.items():
+            holder = []
+
+            def mk(prefix, dt=dt):
+                it_ = EnumInterp(prog, g, {p0: Arr(dt)}, prefix=prefix)
+                holder.append(it_)
+                return it_
+
             try:
-                outs = enumerate_paths(lambda prefix, dt=dt: EnumInterp(prog, g, {p0: Arr(dt)}, prefix=prefix), max_paths=32)
+                outs = enumerate_paths(mk, max_paths=512)
             except Exception:
                 ok = False
                 break
-            for o in outs:
+            for o, it_ in zip(outs, holder):
                 v = o.value if o.kind == "return" else None
                 us = v.of if isinstance(v, Card) else v if isinstance(v, USet) else None
-                if us is None or not us.exact(dtmax, DTMIN[dt]):
+                if us is None or not us.exact(dtmax, DTMIN[dt], it_.root.__dict__.get("slabs")):
                     ok = False
                     break
                 kinds.add("count" if isinstance(v, Card) else "set")
